@@ -235,6 +235,10 @@ static std::string run_op(Tbl &t, std::unique_ptr<LT> &lt, const OpSpec &o) {
       Tbl src(8);
       src.minimum_load_factor(0);
       for (uint64_t i = 0; i < o.a; ++i) src.insert(IKey(700000 + i), i);
+      // assignment transfers the settings too: hand over the destination's own minimum load factor, so that a table with
+      // colliding hashes keeps the threshold that stops its expansions (a minimum of 0 would let one insertion double the
+      // table until memory runs out - the harness was killed by the OOM killer in the thorough tier)
+      src.minimum_load_factor(t.minimum_load_factor());
       AllocCtl::n_allocs = cnt; AllocCtl::fail_at = save;
       t = src;
       return "ok " + std::to_string(t.size());
@@ -245,6 +249,7 @@ static std::string run_op(Tbl &t, std::unique_ptr<LT> &lt, const OpSpec &o) {
       Tbl src(8);
       src.minimum_load_factor(0);
       for (uint64_t i = 0; i < o.a; ++i) src.insert(IKey(700000 + i), i);
+      src.minimum_load_factor(t.minimum_load_factor());
       AllocCtl::n_allocs = cnt; AllocCtl::fail_at = save;
       t = std::move(src);
       return "ok " + std::to_string(t.size());
